@@ -395,11 +395,24 @@ def run_harness(ctx, exe, name, vectors, timeout=900, leak_every=200, procs=None
         if p.returncode != 0:
             raise vlib.MachineryError("harness %s failed rc=%s: %s" % (name, p.returncode, out.decode("utf-8", "replace")[-2000:]))
         done = False
-        for line in open(rpath):
+        garbled = []
+        for line in open(rpath, errors="replace"):
+            if not line.strip():
+                continue
             try:
                 j = json.loads(line)
             except ValueError:
-                raise vlib.MachineryError("harness %s: unparsable result line %s" % (name, line[:300]))
+                # a child killed in the middle of a line: keep what follows the last complete start, if any
+                k = line.rfind('{"id"')
+                j = None
+                if k > 0:
+                    try:
+                        j = json.loads(line[k:])
+                    except ValueError:
+                        j = None
+                if j is None:
+                    garbled.append(line[:200])
+                    continue
             if "done" in j:
                 done = True
             elif "too_many_crashes" in j:
@@ -412,6 +425,8 @@ def run_harness(ctx, exe, name, vectors, timeout=900, leak_every=200, procs=None
                 res.setdefault(j["id"], {}).update(j)
         if not done:
             raise vlib.MachineryError("harness %s did not finish" % name)
+        if garbled and not any(r.get("crash") or r.get("leak") for r in res.values()):
+            raise vlib.MachineryError("harness %s: unparsable result line %s" % (name, garbled[0]))
     ctx.log("harness %s: %d vectors in %.1fs (%d process%s)" % (name, n, time.time() - t0, procs, "es" if procs > 1 else ""))
     return res, box
 
@@ -431,18 +446,26 @@ def sanitizer_signature(report):
     return kind + ("." + ".".join(frames) if frames else "")
 
 
+class Finding(tuple):
+    """(id, signature, text) with optional attributes .hang (input the decoder hung on) and .replay"""
+    hang = None
+    replay = None
+
+
 def safety_findings(res_by_id):
-    """(id, signature, text) for crashes / leaks / timeouts"""
+    """(id, signature, text) for crashes / leaks / watchdog expiries"""
     out = []
     for vid, r in res_by_id.items():
         if r.get("crash"):
             rep = r.get("report", "")
-            sig = "timeout" if r.get("sig") == 14 else sanitizer_signature(rep)
-            out.append((vid, "safety." + sig, "vector %s: child died exit=%s sig=%s\n%s" %
-                        (vid, r.get("exit"), r.get("sig"), rep[:3000])))
+            sig = "decoder_does_not_terminate" if r.get("sig") == 14 else sanitizer_signature(rep)
+            f = Finding((vid, "safety." + sig, "vector %s: child died exit=%s sig=%s %s\n%s" %
+                         (vid, r.get("exit"), r.get("sig"), r.get("hang") or "", rep[:3000])))
+            f.hang = r.get("hang")
+            out.append(f)
         elif r.get("leak"):
             rep = r.get("report", "")
-            out.append((vid, "safety." + sanitizer_signature(rep), "vector %s leaked\n%s" % (vid, rep[:3000])))
+            out.append(Finding((vid, "safety." + sanitizer_signature(rep), "vector %s leaked\n%s" % (vid, rep[:3000]))))
     return out
 
 
@@ -455,20 +478,31 @@ def confirmed_safety(ctx, exe, vectors, res_by_id, limit=12):
         return []
     byid = {v["id"]: v for v in vectors}
     out, nsig = [], {}
-    for vid, sig, text in sorted(found):
+    for f in sorted(found, key=lambda x: tuple(x)):
+        vid, sig, text = f
         nsig[sig] = nsig.get(sig, 0) + 1
         if nsig[sig] > 2 or len(out) >= limit:       # same signature: two witnesses are enough
             continue
         v = byid.get(vid)
         if v is None:                                # e.g. the too-many-crashes marker
-            out.append((vid, sig, text))
+            out.append(f)
             continue
-        v2 = dict(v)
-        v2["alarm"] = max(60, int(v.get("alarm", 0)))
+        if f.hang and f.hang.get("hex"):
+            # the decoder hung on one byte string inside a larger vector: re-run exactly that string alone
+            v2 = {"id": vid, "op": "parse", "hex": f.hang["hex"], "flags": [0], "wb": [], "names": 1, "legacy": 0,
+                  "alarm": 20}
+        else:
+            v2 = dict(v)
+            v2["alarm"] = max(60, int(v.get("alarm", 0)))
         r2, _ = run_harness(ctx, exe, "confirm", [v2], timeout=1800, leak_every=1, procs=1)
         again = safety_findings(r2)
         if again:
-            out.append((vid, again[0][1], again[0][2]))
+            g = Finding((vid, again[0][1], again[0][2]))
+            g.hang = f.hang
+            if f.hang and f.hang.get("hex"):
+                g.replay = json.dumps({"signature": again[0][1], "box": f.hang["hex"], "off": f.hang.get("off"),
+                                       "op": "parse", "hex": f.hang["hex"]})
+            out.append(g)
         else:
             ctx.notes.setdefault("unreproduced_safety_events", []).append({"id": vid, "signature": sig})
             ctx.log("safety event %s on %s did not reproduce alone: not reported" % (sig, vid))
